@@ -22,6 +22,9 @@ type vmBox struct {
 	define    otto.Value
 	constFn   otto.Value
 	takeLog   otto.Value
+	create    otto.Value
+	createNew otto.Value
+	defineNE  otto.Value
 	defGetter otto.Value
 	objectFn  otto.Value
 	fn        otto.Value
@@ -81,7 +84,10 @@ func newBox(env int) *vmBox {
 	for i, s := range reviverSrc {
 		b.reviver[i] = must(s)
 	}
-	b.defGetter = must(`(function(o,k,h,v){Object.defineProperty(o,k,{get:function(){Object.defineProperty(this,h,{enumerable:false});return v},enumerable:true,configurable:true})})`)
+	b.defGetter = must(`(function(o,k,h,v){Object.defineProperty(o,k,{get:function(){if(Object.prototype.hasOwnProperty.call(this,h)){Object.defineProperty(this,h,{enumerable:false})};return v},enumerable:true,configurable:true})})`)
+	b.create = must(`(function(p){return Object.create(p)})`)
+	b.createNew = must(`(function(p){function C(){};C.prototype=p;return new C()})`)
+	b.defineNE = must(`(function(o,k,v){Object.defineProperty(o,k,{value:v,writable:true,enumerable:false,configurable:true})})`)
 	b.constFn = must(`(function(p){return function(){return p}})`)
 	b.define = must(`(function(o,k,v){Object.defineProperty(o,k,{value:v,writable:true,enumerable:true,configurable:true})})`)
 	if envSrc[env] != "" {
@@ -302,6 +308,41 @@ func (r *reader) value() otto.Value {
 		r.i++
 		r.stack = r.stack[:len(r.stack)-1]
 		return o.Value()
+	case 'P', 'Q':
+		// an object with a prototype: own members, own non-enumerable members, inherited members
+		proto, err := r.b.vm.Object(`({})`)
+		if err != nil {
+			panic(err)
+		}
+		mkFn := r.b.create
+		if c == 'Q' {
+			mkFn = r.b.createNew
+		}
+		ov, err := mkFn.Call(otto.UndefinedValue(), proto.Value())
+		if err != nil {
+			panic(err)
+		}
+		o := ov.Object()
+		r.stack = append(r.stack, ov)
+		for part := 0; part < 3; part++ {
+			for r.s[r.i] != '}' {
+				k := string(utf16.Decode(r.units()))
+				v := r.value()
+				switch {
+				case part == 2:
+					r.def(proto, k, v)
+				case part == 1 && r.hide == nil:
+					if _, err := r.b.defineNE.Call(otto.UndefinedValue(), ov, k, v); err != nil {
+						panic(err)
+					}
+				default:
+					r.def(o, k, v)
+				}
+			}
+			r.i++
+		}
+		r.stack = r.stack[:len(r.stack)-1]
+		return ov
 	case 'O':
 		o, err := r.b.vm.Object(`({})`)
 		if err != nil {
